@@ -1,7 +1,7 @@
 #!/bin/sh
 # thorough tier for the listed properties (default: all), each under a wall-clock cap;
 # full output of each check goes to $LOGDIR/thorough-<id>.log as it is produced
-cd /verif
+cd "$(dirname "$0")/.."
 LOGDIR=${LOGDIR:-/tmp}
 CAP=${CAP:-5400}
 ids=${@:-$(python3 -c "import json;print(' '.join(c['property_id'] for c in json.load(open('MANIFEST.json'))['checks']))")}
